@@ -6,13 +6,14 @@ import FpDriver.SymTree
 import FpDriver.Reader
 import FpDriver.Block
 import FpDriver.ExprLex
+import FpDriver.Combi
 
 /-! dispatcher: one handler per model; each handler lives in FpDriver/<Model>.lean -/
 namespace FpDriver
 open Fp.Wire
 
 def handlers : List (String → List String → Option String) :=
-  [FpDriver.Splitline.handle, FpDriver.Norm.handle, FpDriver.Expr.handle, FpDriver.SymTree.handle, FpDriver.Reader.handle, FpDriver.Block.handle, FpDriver.ExprLex.handle]
+  [FpDriver.Splitline.handle, FpDriver.Norm.handle, FpDriver.Expr.handle, FpDriver.SymTree.handle, FpDriver.Reader.handle, FpDriver.Block.handle, FpDriver.ExprLex.handle, FpDriver.Combi.handle]
 
 def dispatch (line : String) : String :=
   match fields line with
